@@ -17,6 +17,7 @@
                must EQUAL the reference scan (K against the reference model). *)
 From Coq Require Import List NArith ZArith Bool Arith.
 From YV Require Import Gen.PatConsts Pat.Syntax Pat.Sem Pat.Matcher Pat.Modifiers Pat.MatchList.
+From YV Require Export Pat.Base64.
 Import ListNotations.
 Local Open Scope N_scope.
 
@@ -27,11 +28,6 @@ Fixpoint ralt (l : list re) : re :=
   | [x] => x
   | x :: t => RAlt x (ralt t)
   end.
-
-Definition std_alphabet : alphabet :=
-  [65;66;67;68;69;70;71;72;73;74;75;76;77;78;79;80;81;82;83;84;85;86;87;88;89;90;
-   97;98;99;100;101;102;103;104;105;106;107;108;109;110;111;112;113;114;115;116;117;118;119;120;121;122;
-   48;49;50;51;52;53;54;55;56;57;43;47].
 
 (* ---- stream (a) ------------------------------------------------------- *)
 Inductive op :=
